@@ -682,11 +682,11 @@ def plan(tier, seed):
     frac = 1.0
     specs = [("arr", i, 32, frac) for i in range(32)]
     specs += [("together", i, 16, 1.0) for i in range(16)]
-    n = 10000 if tier == "quick" else 150000
+    n = 10000 if tier == "quick" else 400000
     specs += [("chains", n // 16, i) for i in range(16)]
-    n = 3000 if tier == "quick" else 50000
+    n = 3000 if tier == "quick" else 150000
     specs += [("random", n // 16, i) for i in range(16)]
-    n = 1600 if tier == "quick" else 40000
+    n = 1600 if tier == "quick" else 100000
     specs += [("repeat", n // 16, i) for i in range(16)]
     specs += [("clash",), ("implied",)]
     return specs
